@@ -249,22 +249,23 @@ def gen_cases(ctx):
     for n in (1, 2, 3, 4):
         gen_perms(n, None, rng, hs)
     if q:
-        gen_perms(5, 10, rng, hs)
+        gen_perms(5, 24, rng, hs)
+        gen_perms(6, 2, rng, hs)
         gen_allseq(3, 5, hs)
-        gen_allseq(4, 4, hs)
+        gen_allseq(4, 5, hs)
     else:
         gen_perms(5, None, rng, hs)
-        gen_perms(6, 40, rng, hs)
-        gen_perms(7, 6, rng, hs)
+        gen_perms(6, 60, rng, hs)
+        gen_perms(7, 12, rng, hs)
         gen_allseq(3, 6, hs)
         gen_allseq(4, 6, hs)
     rng = random.Random(ctx.subseed("directed"))
     if q:
-        gen_directed(rng, [2, 3, 4, 5, 6, 7], 2, hs)
+        gen_directed(rng, [2, 3, 4, 5, 6, 7], 4, hs)
     else:
-        gen_directed(rng, [2, 3, 4, 5, 6, 7, 8, 9], 12, hs)
+        gen_directed(rng, [2, 3, 4, 5, 6, 7, 8, 9, 10], 16, hs)
     rng = random.Random(ctx.subseed("random"))
-    nshort, nlong = (220, 6) if q else (5000, 60)
+    nshort, nlong = (600, 12) if q else (12000, 180)
     for i in range(nshort):
         kr = rng.choice([8, 8, 64, 64, 64, 1 << 20])
         hs.append(gen_random(rng, "rnd/%d/k%d" % (i, kr), rng.randint(20, 400), kr, rng.choice(["mix", "growdrain", "saw"])))
@@ -482,7 +483,20 @@ def build(ctx):
 
 
 def run(ctx):
-    ctx.prove()
+    if not ctx.quick:
+        # thorough: rebuild this property's proof files from clean
+        for vo in list((vlib.COQ / "C01").glob("*.vo")) + [vlib.COQ / "Properties_C01.vo"]:
+            try:
+                vo.unlink()
+            except OSError:
+                pass
+    proved = ctx.prove()
+    if proved and not ctx.quick:
+        rc, o = vlib.sh(["coqchk", "-silent", "-o", "-Q", ".", "LibaV", "LibaV.Properties_C01"], cwd=vlib.COQ, timeout=900)
+        if rc != 0 or "Axioms: <none>" not in " ".join(o.split()):
+            ctx.tie_broken("coqchk on LibaV.Properties_C01 failed or reports axioms: " + " ".join(o.split())[-400:])
+        else:
+            ctx.cov["trusted_base"].append("coqchk -o LibaV.Properties_C01: re-checked by the standalone kernel, Axioms: <none>")
     cbin, mbin = build(ctx)
     t0 = time.time()
     hs, n_corpus = gen_cases(ctx)
